@@ -45,7 +45,8 @@ Exec(I, st, failAt) ==
     [] I.i = "litpush" -> [st EXCEPT !.ds = Append(@, VS(I.s))]
     [] I.i = "bltin" ->
          LET a == Arity(I.s) IN
-         IF a < 0 \/ n < a THEN RunErr(st)
+         IF a < 0 THEN [st EXCEPT !.j = FALSE]     \* function outside the modelled library: run not judged further
+         ELSE IF n < a THEN RunErr(st)
          ELSE LET v == CASE a = 0 -> Fn0(I.s) [] a = 1 -> Fn1(I.s, ds[n])
                          [] a = 2 -> Fn2(I.s, ds[n - 1], ds[n]) [] a = 3 -> Fn3(I.s, ds[n - 2], ds[n - 1], ds[n])
               IN [st EXCEPT !.ds = Append(PopN(ds, a), v)]
